@@ -585,7 +585,17 @@ func reachableFrom(start *ssa.BasicBlock, stop map[*ssa.BasicBlock]bool) map[*ss
 }
 
 // returnsOf lists the Return instructions of fn.
+// returnsOf lists the return statements that decide fn's results (see expandReturns: a return that
+// only forwards the results of a transparent helper stands for the helper's returns).
 func returnsOf(fn *ssa.Function) []*ssa.Return {
+	if fn == nil {
+		return nil
+	}
+	return expandReturns(fn)
+}
+
+// plainReturnsOf lists the Return instructions of fn itself.
+func plainReturnsOf(fn *ssa.Function) []*ssa.Return {
 	var out []*ssa.Return
 	for _, b := range fn.Blocks {
 		if len(b.Instrs) == 0 {
